@@ -131,6 +131,13 @@ def g3():
         yield 3
 
 
+def recursive(n):
+    if n:
+        yield from recursive(n - 1)
+    else:
+        yield 0
+
+
 def g2():
     with PM("b1") as b1, PM("b2"):  # noqa: F841
         yield from g3()
@@ -235,6 +242,7 @@ def scenarios():
         g = fn(*a)
         next(g)
         out.append((label, g, lambda: stackscope.extract(g)))
+    gen_case("recursive generator, seven frames on one line", recursive, 6)
     gen_case("generator chain with nested with blocks", g1)
     gen_case("@contextmanager inner stacks, two deep", with_gcms)
     gen_case("ExitStack with GCM / push / callback / nested stack", with_exitstack, False)
@@ -308,7 +316,18 @@ def render(label, st, out):
             uni = st.format(show_contexts=sc, show_hidden_frames=sh)
             asc = st.format(ascii_only=True, show_contexts=sc, show_hidden_frames=sh)
             summ = list(st.as_stdlib_summary(show_contexts=sc, show_hidden_frames=sh))
-            r = {"ctx": sc, "hidden": sh, "uni": uni, "asc": asc,
+            flat_ok = True
+            if not sh:
+                # C19: format_flat() is the header + the STANDARD rendering of that summary (StackSummary.format(), which
+                # folds runs of identical entries: recursion) + the leaf and error lines
+                flat = st.format_flat(show_contexts=sc)
+                expect = [uni[0]] + (list(st.as_stdlib_summary(show_contexts=sc).format()) if st.frames else [])
+                if st.leaf is not None:
+                    expect.append("  Target of innermost frame: %r\n" % (st.leaf,))
+                flat_ok = flat[:len(expect)] == expect and (
+                    (st.error is None and len(flat) == len(expect)) or
+                    (st.error is not None and flat[len(expect):len(expect) + 1] == ["  Error while extracting stack:\n"]))
+            r = {"ctx": sc, "hidden": sh, "uni": uni, "asc": asc, "flat_ok": flat_ok,
                  "summary": [[e.filename, e.lineno, e.name] for e in summ],
                  "str_is_join": (str(st) == "".join(uni)) if (sc and not sh) else True}
             case["renderings"].append(r)
